@@ -21,11 +21,6 @@ import pyvc.ext.c18 as _x   # noqa: F401   (records C18File, spec function c18_f
 SU = 'cell_type_mapper.diff_exp.score_utils.'
 MT = 'cell_type_mapper.type_assignment.matching.'
 
-# raw_data: dataset name -> array read from the file ('n_cells' 1-D, the others 2-D)
-record('C18Raw', _rest='Dict[Name,Arr2[Real]]', n_cells='Arr[Int]')
-# per-leaf statistics: 'n_cells' scalar, the others one row (per-gene vector)
-record('C18Leaf', _rest='Dict[Name,Arr[Real]]', n_cells='Int')
-record('C18RawStats', gene_names='List[Name]', cluster_stats='Dict[Name,C18Leaf]')
 
 F = "c18_file(precomputed_stats_path)"
 ROW = f"{F}['cluster_to_row']"
@@ -118,5 +113,66 @@ contract(
         2: ["this['n_cells'] == in_file['n_cells'][idx]",
             "all(implies(all_keys[i] != 'n_cells', all_keys[i] in this and "
             + _row_is("this[all_keys[i]]", "all_keys[i]", "idx") + ") for i in range(_i))"],
+    },
+)
+
+
+# ---------------------------------------------------------------------------------------------
+# aggregate_stats: n_cells = sum of n_cells, mean = (sum of the 'sum' rows) / max(1, n_cells)
+# ---------------------------------------------------------------------------------------------
+D_ = 'precomputed_stats'
+L_ = 'leaf_population'
+NTOT = f"c18_nsum({D_}, {L_}, len({L_}))"
+
+
+def _gen_aggregate(rng, size):
+    import numpy as np
+    n_genes = rng.randint(1, size + 2)
+    names = [f"leaf{i}" for i in range(rng.randint(1, size + 2))]
+    with_counts = rng.random() < 0.7
+    stats = {}
+    for nm in names:
+        n = rng.choice([0, 0, 1, 1, 2, 3, 7])
+        st = dict(n_cells=n, sum=np.array([rng.choice([0.0, 0.5, 1.0, 2.25, 7.0]) * n for _ in range(n_genes)]))
+        st['sumsq'] = st['sum'] ** 2
+        if with_counts:
+            for k in ('gt0', 'gt1', 'ge1'):
+                st[k] = np.array([rng.randint(0, n) for _ in range(n_genes)], dtype=int)
+        stats[nm] = st
+    pop = rng.sample(names, rng.randint(1, len(names)))
+    return dict(leaf_population=pop, precomputed_stats=stats)
+
+
+contract(
+    SU + 'aggregate_stats',
+    properties=['C18'],
+    mode='slice', unexpected_exceptions='allowed',
+    tracked=['leaf_population', 'precomputed_stats', 'leaf_node', 'these_stats', 'n_genes', 'sum_arr', 'n_cells',
+             'mu', 'result'],
+    params=dict(leaf_population='List[Name]', precomputed_stats='Dict[Name,C18Leaf]'),
+    locals=dict(result='C18Node'),
+    returns='C18Node',
+    native=dict(gen=_gen_aggregate),
+    requires=[
+        # a population of leaves of the statistics file (every node of a valid taxonomy has a leaf);
+        # the per-gene vectors are rows of one matrix
+        f"len({L_}) >= 1",
+        f"all({L_}[i] in {D_} and 'sum' in {D_}[{L_}[i]] and "
+        f"len({D_}[{L_}[i]]['sum']) == len({D_}[{L_}[0]]['sum']) for i in range(len({L_})))",
+    ] + [f"all(implies('{k}' in {D_}[{L_}[i]], len({D_}[{L_}[i]]['{k}']) == len({D_}[{L_}[0]]['sum'])) "
+         f"for i in range(len({L_})))" for k in STAT_KEYS[1:]],
+    ensures=[
+        f"len(result['mean']) == len({D_}[{L_}[0]]['sum'])",
+        f"'n_cells' in result and c18_int(result['n_cells']) == {NTOT}",
+        f"all(result['mean'][g] == c18_gsum({D_}, {L_}, len({L_}), g) / max(1, {NTOT}) "
+        "for g in range(len(result['mean'])))",
+        # a single leaf: its own sum / max(1, n_cells)  (the centroid of that cluster)
+        f"implies(len({L_}) == 1, all(result['mean'][g] == {D_}[{L_}[0]]['sum'][g] / max(1, {D_}[{L_}[0]]['n_cells']) "
+        "for g in range(len(result['mean']))))",
+        f"mc_same({D_}, old({D_}))",
+    ],
+    loops={
+        0: [f"n_cells == c18_nsum({D_}, {L_}, _i)", "len(sum_arr) == n_genes",
+            f"all(sum_arr[g] == c18_gsum({D_}, {L_}, _i, g) for g in range(n_genes))"],
     },
 )
